@@ -77,6 +77,8 @@ def cbStep (s : DState) : List String → DState × String
   | ["race", _callers, _mx, _rounds] => (s, "within-budget")
   -- `never_stuck` + `lockorder_sound` / `no_callback_under_lock`: observers run with no lock held
   | ["notifyrace", _callers, _rounds] => (s, "live")
+  -- `blocks_while_open` / `reopens_on_trial_failure`: after the failed trial the breaker is open with a fresh timeout
+  | ["reopen", _callers, _rounds] => (s, "single-trial")
   | ["new", ft, st, mx, iv, to] =>
     match ft.toNat?, st.toNat?, mx.toNat?, iv.toNat?, to.toNat? with
     | some ft, some st, some mx, some iv, some to =>
